@@ -276,18 +276,29 @@ def print_assumptions(ctx, pid):
     body = "From TP Require Import Properties.%s.\n" % pid
     for t in thms:
         body += 'Goal True. idtac "@@THM %s". exact I. Qed.\nPrint Assumptions %s.\n' % (t, t)
+    for t in thms:
+        body += 'Goal True. idtac "@@DEP %s". exact I. Qed.\nPrint All Dependencies %s.\n' % (t, t)
     rc, o = coq_eval(ctx, "assm_" + pid, body, timeout=300)
     res = {}
     if rc != 0:
         return None, o
     cur = None
+    deps = {}
+    dep = None
     for line in o.split("\n"):
         m = re.match(r"@@THM (\S+)", line)
+        d = re.match(r"@@DEP (\S+)", line)
         if m:
-            cur = m.group(1)
+            cur, dep = m.group(1), None
             res[cur] = []
+        elif d:
+            cur, dep = None, d.group(1)
+            deps[dep] = set()
+        elif dep is not None:
+            deps[dep].update(re.findall(r"\bExtracted\.([A-Za-z0-9_']+)", line))
         elif cur is not None and line.strip():
             res[cur].append(line.strip())
+    ctx.extracted_deps = deps
     out = {}
     for t, lines in res.items():
         txt = " ".join(lines)
@@ -380,6 +391,8 @@ def write_evidence(ctx, coverage, assumptions, violations, level="proof"):
     os.makedirs(EVIDENCE, exist_ok=True)
     cov = dict(coverage)
     cov.setdefault("trusted_base", TRUSTED_BASE)
+    if getattr(ctx, "extracted_used", None) is not None:
+        cov.setdefault("regenerated_definitions_the_theorems_depend_on", ctx.extracted_used)
     ev = {
         "property_id": ctx.pid,
         "tier": ctx.tier,
@@ -427,6 +440,21 @@ def proof_step(ctx, verdict, pid, extra_targets=()):
         return res
     res["assumptions"] = assm
     res["discharged"] = len([t for t in thms if t in assm])
+    # the tie to the source: every regenerated definition a theorem depends on must have been located in the working tree
+    meta = getattr(ctx, "extract_meta", {})
+    deps = getattr(ctx, "extracted_deps", {})
+    used = sorted(set(x for t in thms for x in deps.get(t, ())))
+    res["extracted_items_used"] = used
+    ctx.extracted_used = used
+    lost = [x for x in used if x in meta and not meta[x].get("extracted")]
+    if lost:
+        which = {x: sorted(t for t in thms if x in deps.get(t, ())) for x in lost}
+        res["build_ok"] = False
+        res["broken"] = ["translator could not locate %s in the source: %s now speak(s) of its last-known value" % (x, ", ".join(which[x][:4]) + (" ..." if len(which[x]) > 4 else ""))
+                         for x in lost]
+        res["build_tail"] = "; ".join("%s: %s" % (x, meta[x].get("note") or "not located") for x in lost)
+        res["discharged"] = len([t for t in thms if t in assm and not any(x in deps.get(t, ()) for x in lost)])
+        ctx.log("TIE BROKEN: " + "; ".join(res["broken"]))
     return res
 
 
